@@ -113,6 +113,7 @@ Ltac astep_cases H :=
          | context [match sstep ?s ?a with _ => _ end] => destruct (sstep s a) eqn:?; try discriminate
          | context [match recv ?s with _ => _ end] => destruct (recv s) eqn:?; try discriminate
          | context [match last_line ?s with _ => _ end] => destruct (last_line s) eqn:?; try discriminate
+         | context [match tmp ?s with _ => _ end] => destruct (tmp s) eqn:?; try discriminate
          | context [if ?x then _ else _] => destruct x eqn:?; try discriminate
          end;
   inversion H; subst; clear H.
@@ -131,7 +132,7 @@ Definition inflight (st : astate) : list snap :=
   (match cp st with CComputed s => [s] | _ => [] end) ++
   (match mp st with MFinalComputed s | MCompactRead s | MCompactCreated s => [s] | _ => [] end).
 Definition snaps (st : astate) : list snap :=
-  file st ++ (match cfile st with Some l => l | None => [] end) ++ inflight st.
+  file st ++ (match cfile st with Some l => l | None => [] end) ++ (match tmp st with Some l => l | None => [] end) ++ inflight st.
 
 Lemma in_append : forall st s x, In x (append st s) -> In x (file st) \/ x = s.
 Proof.
@@ -257,18 +258,19 @@ Proof. reflexivity. Qed.
 Lemma persisted_in_snaps : forall st s, persisted st = PSnap s -> In s (snaps st).
 Proof.
   unfold persisted, snaps; intros st s H.
-  destruct (if orig st then last_line (file st) else None) as [x|] eqn:E.
-  - inversion H; subst. destruct (orig st); [|discriminate]. apply last_line_in in E. apply in_app_iff; auto.
-  - destruct (cfile st) as [l|]; [|discriminate].
-    destruct (last_line l) eqn:E2; inversion H; subst. apply last_line_in in E2.
+  destruct (cfile st) as [l|].
+  - destruct (last_line l) eqn:E2; inversion H; subst. apply last_line_in in E2.
     apply in_app_iff; right. apply in_app_iff; auto.
+  - destruct (if orig st then last_line (file st) else None) as [x|] eqn:E; inversion H; subst.
+    destruct (orig st); [|discriminate]. apply last_line_in in E. apply in_app_iff; auto.
 Qed.
 
 (* since 3aa388e the history never makes GetLatestStatus fail *)
 Lemma persisted_no_err : forall st, persisted st <> PErr.
 Proof.
-  intros st. unfold persisted. destruct (if orig st then last_line (file st) else None); [discriminate|].
-  destruct (cfile st) as [l|]; [|discriminate]. destruct (last_line l); discriminate.
+  intros st. unfold persisted. destruct (cfile st) as [l|].
+  - destruct (last_line l); discriminate.
+  - destruct (if orig st then last_line (file st) else None); discriminate.
 Qed.
 
 (* C08_crash, first half: for every prefix of every execution, the status reported after the kill is not `running` *)
@@ -394,7 +396,7 @@ Qed.
 (* before fix b9e9fa2 this execution (chain of two steps, kill after the snapshot that follows the first) was the witness of
    finding F8a: the history said `finished`, the second step never started.  Now the snapshot says `running`, shown as failed. *)
 Definition f8a_trace : list alabel :=
-  [LOpen; LWriteS0; LBind; LSched AStart; LSched (ALaunch 0); LSched (AEnd 0 true); LSched ADoneSend;
+  [LLockDag; LOpen; LWriteS0; LBind; LSched AStart; LSched (ALaunch 0); LSched (AEnd 0 true); LSched ADoneSend;
    LNotify; LCLock; LCOv; LCTbl; LCAppend].
 
 Example f8a_trace_now_failed : exists st,
@@ -406,7 +408,7 @@ Proof. eexists. split; [vm_compute; reflexivity|]. vm_compute. auto. Qed.
    `finished` with a running step; now `running`, shown as failed *)
 Example torn_snapshot_now_failed : exists st,
   exec (init 2 SockAbsent)
-    [LOpen; LWriteS0; LBind; LSched AStart; LSched (ALaunch 0); LSched (AEnd 0 true); LSched ADoneSend;
+    [LLockDag; LOpen; LWriteS0; LBind; LSched AStart; LSched (ALaunch 0); LSched (AEnd 0 true); LSched ADoneSend;
      LNotify; LCLock; LCOv; LSched (ALaunch 1); LCTbl; LCAppend] = Some st /\
   s_ov (fst (report 2 (after_kill st))) = OError /\
   map nst (s_tbl (fst (report 2 (after_kill st)))) = [NSuccess; NRunning].
@@ -417,7 +419,7 @@ Example crash_nonvacuous :
   exists ls st, exec (init 2 SockAbsent) ls = Some st /\
                 s_ov (fst (report 2 (after_kill st))) = OSuccess /\ all_succeed (tbl (sc st)) = true.
 Proof.
-  exists [LOpen; LWriteS0; LBind; LSched AStart; LSched (ALaunch 0); LSched (ALaunch 1); LSched (AEnd 0 true);
+  exists [LLockDag; LOpen; LWriteS0; LBind; LSched AStart; LSched (ALaunch 0); LSched (ALaunch 1); LSched (AEnd 0 true);
           LSched (AEnd 1 true); LSched ADoneSend; LNotify; LCLock; LCOv; LCTbl; LCAppend].
   eexists. split; [vm_compute; reflexivity|]. vm_compute. auto.
 Qed.
@@ -481,7 +483,7 @@ Theorem live_when_bound : forall n st,
 Proof. intros n st H. unfold report, reported. rewrite H. reflexivity. Qed.
 
 Example live_nonvacuous : exists st,
-  exec (init 2 SockStale) [LOpen; LWriteS0; LBind; LSched AStart; LSched (ALaunch 0); LSched (AEnd 0 true)] = Some st /\
+  exec (init 2 SockStale) [LLockDag; LOpen; LWriteS0; LBind; LSched AStart; LSched (ALaunch 0); LSched (AEnd 0 true)] = Some st /\
   in_progress st = true /\ map nst (s_tbl (fst (report 2 st))) = [NSuccess; NNone] /\ s_ov (fst (report 2 st)) = ORunning.
 Proof. eexists. split; [vm_compute; reflexivity|]. vm_compute. auto. Qed.
 
@@ -495,14 +497,15 @@ Definition cur (st : astate) : snap := snap_of (sc st).
 (* since 7f2c2d0: the main thread's final snapshot is taken after Schedule returned, and nothing is appended after it *)
 Definition InvF (st : astate) : Prop :=
   (4 <= mrank (mp st) -> sph (sc st) = SReturned) /\
-  (1 <= mrank (mp st) <= 10 -> orig st = true /\ wclosed st = false) /\
-  (mrank (mp st) <= 8 -> cfile st = None) /\
+  (1 <= mrank (mp st) <= 11 -> orig st = true /\ wclosed st = false) /\
+  (mrank (mp st) <= 10 -> cfile st = None) /\
   (forall s, mp st = MFinalComputed s -> s = cur st) /\
-  (5 <= mrank (mp st) <= 10 -> last_line (file st) = Some (cur st)) /\
+  (5 <= mrank (mp st) <= 11 -> last_line (file st) = Some (cur st)) /\
   (forall s, mp st = MCompactRead s -> s = cur st) /\
   (forall s, mp st = MCompactCreated s -> s = cur st) /\
-  (10 <= mrank (mp st) -> cfile st = Some [cur st]) /\
-  (11 <= mrank (mp st) -> orig st = false).
+  (mp st = MCompactWritten -> tmp st = Some [cur st]) /\
+  (11 <= mrank (mp st) -> cfile st = Some [cur st]) /\
+  (12 <= mrank (mp st) -> orig st = false).
 
 Lemma InvF_init : forall n s0, InvF (init n s0).
 Proof.
@@ -514,7 +517,7 @@ Proof. intros st s Ho Hw. unfold append. rewrite Ho, Hw. apply last_line_app. Qe
 
 Lemma InvF_step : forall st l st', InvF st -> astep st l = Some st' -> InvF st'.
 Proof.
-  intros st l st' (P4 & OW & CN & FC & LL & CR & CC & CF & OF) H.
+  intros st l st' (P4 & OW & CN & FC & LL & CR & CC & TW & CF & OF) H.
   astep_cases H; unfold InvF, cur, finished in *; simpl in *;
     repeat match goal with
            | H : mp _ = _ |- _ => rewrite H in *
@@ -536,6 +539,7 @@ Proof.
   all: try (pose proof (FC _ eq_refl) as HFC).
   all: try (pose proof (CR _ eq_refl) as HCR).
   all: try (pose proof (CC _ eq_refl) as HCC).
+  all: try (pose proof (TW eq_refl) as HTW).
   all: repeat split; intros; subst; try lia; try congruence; try discriminate; auto.
   all: try solve [rewrite append_last; congruence].
   all: try solve [apply P4; lia].
@@ -574,12 +578,11 @@ Theorem final : forall n s0 ls st,
   report n st = (correct (snap_of (sc st)), false).
 Proof.
   intros n s0 ls st He Hm.
-  pose proof (InvF_exec _ _ _ (InvF_init n s0) He) as (P4 & OW & CN & FC & LL & CR & CC & CF & OF).
+  pose proof (InvF_exec _ _ _ (InvF_init n s0) He) as (P4 & OW & CN & FC & LL & CR & CC & TW & CF & OF).
   rewrite Hm in *. simpl in *.
-  assert (Ho : orig st = false) by (apply OF; lia).
   assert (Hc : cfile st = Some [cur st]) by (apply CF; lia).
   assert (Hp : persisted st = PSnap (snap_of (sc st))).
-  { unfold persisted. rewrite Ho, Hc. reflexivity. }
+  { unfold persisted. rewrite Hc. reflexivity. }
   split; auto.
   unfold report, reported. rewrite Hp.
   destruct (alive st) eqn:Ha; auto.
@@ -592,7 +595,7 @@ Qed.
    the run.  Now the goroutine holds statusLock from before its Status() until after its Write: the main thread cannot take
    its final snapshot in between ... *)
 Definition f8b_prefix : list alabel :=
-  [LOpen; LWriteS0; LBind; LSched AStart; LSched (ALaunch 0); LSched (AEnd 0 true); LSched ADoneSend; LNotify; LCLock; LCOv; LCTbl; LCAppend;
+  [LLockDag; LOpen; LWriteS0; LBind; LSched AStart; LSched (ALaunch 0); LSched (AEnd 0 true); LSched ADoneSend; LNotify; LCLock; LCOv; LCTbl; LCAppend;
    LSched (ALaunch 1); LFsWake; LFsOv; LFsTbl;
    LSched (AEnd 1 true); LSched ADoneSend; LNotify; LSched AWait; LSched AReturn].
 
@@ -606,7 +609,7 @@ Proof. split; [eexists; split; vm_compute; reflexivity|]. split; vm_compute; ref
 Example f8b_trace_now_final : exists st,
   exec (init 2 SockAbsent)
     (f8b_prefix ++ [LFsAppend; LCLock; LCOv; LCTbl; LCAppend; LFinalLock; LFinalCompute; LFinalAppend; LFinish; LUnbind;
-                    LCompactRead; LCompactCreate; LCompactWrite; LCompactUnlink; LCloseWriter]) = Some st /\
+                    LCompactRead; LCompactCreate; LCompactWrite; LCompactRename; LCompactUnlink; LCloseWriter]) = Some st /\
   mp st = MClosed /\ persisted st = PSnap (snap_of (sc st)) /\ s_ov (fst (report 2 st)) = OSuccess /\
   map (fun x => s_ov x) (file st) = [ONone; ORunning; ORunning; OSuccess; OSuccess].
 Proof. eexists. split; [vm_compute; reflexivity|]. vm_compute. auto. Qed.
@@ -614,7 +617,7 @@ Proof. eexists. split; [vm_compute; reflexivity|]. vm_compute. auto. Qed.
 (* a snapshot goroutine that comes after the final status (finished flag set) appends nothing *)
 Example late_snapshot_not_appended : exists st st',
   exec (init 1 SockAbsent)
-    [LOpen; LWriteS0; LBind; LSched AStart; LSched (ALaunch 0); LSched (AEnd 0 true); LSched ADoneSend; LNotify; LSched AWait;
+    [LLockDag; LOpen; LWriteS0; LBind; LSched AStart; LSched (ALaunch 0); LSched (AEnd 0 true); LSched ADoneSend; LNotify; LSched AWait;
      LSched AReturn; LFinalLock; LFinalCompute; LFinalAppend] = Some st /\
   exec st [LCLock; LCOv; LCTbl; LCAppend; LFsWake; LFsOv; LFsTbl; LFsAppend] = Some st' /\ file st' = file st /\ length (file st) = 2.
 Proof. eexists. eexists. split; [vm_compute; reflexivity|]. vm_compute. auto. Qed.
@@ -636,27 +639,73 @@ Qed.
 
 (* before fix 3aa388e this was the witness of finding F7a (guard = refused with EOF): kill right after the history file was created *)
 Example daemon_after_open : exists st,
-  exec (init 2 SockAbsent) [LOpen] = Some st /\ mp st = MOpened /\ job_guard (report 2 (after_kill st)) = GMinuteGuard.
+  exec (init 2 SockAbsent) [LLockDag; LOpen] = Some st /\ mp st = MOpened /\ job_guard (report 2 (after_kill st)) = GMinuteGuard.
 Proof. eexists. split; [vm_compute; reflexivity|]. split; vm_compute; reflexivity. Qed.
 
-(* a kill inside Close's compaction, between the creation of the twin and its first write: the original (complete) is read,
-   the empty twin would be skipped *)
-Example kill_inside_compaction : exists st,
-  exec (init 1 SockAbsent)
-    [LOpen; LWriteS0; LBind; LSched AStart; LSched (ALaunch 0); LSched (AEnd 0 true); LSched ADoneSend; LNotify; LCLock; LCOv; LCTbl; LCAppend;
-     LSched AWait; LSched AReturn; LFinalLock; LFinalCompute; LFinalAppend; LFinish; LUnbind; LCompactRead; LCompactCreate] = Some st /\
-  cfile st = Some [] /\ orig st = true /\
-  report 1 (after_kill st) = (snap_of (sc st), false) /\ s_ov (snap_of (sc st)) = OSuccess.
-Proof. eexists. split; [vm_compute; reflexivity|]. vm_compute. auto. Qed.
+(* kills inside Close's compaction (since eb925d1: tmp, rename, unlink).  A stray tmp - empty or written - is invisible to the
+   reader: the complete original is reported; once the twin is published it is read and the original next to it is dropped;
+   after the unlink the twin alone is read.  Always the final state, never an error. *)
+Definition run1_to_unbind : list alabel :=
+  [LLockDag; LOpen; LWriteS0; LBind; LSched AStart; LSched (ALaunch 0); LSched (AEnd 0 true); LSched ADoneSend; LNotify; LCLock; LCOv; LCTbl; LCAppend;
+   LSched AWait; LSched AReturn; LFinalLock; LFinalCompute; LFinalAppend; LFinish; LUnbind].
 
-(* C08_restartable: after a kill at any point a new agent's probe says "not running" and its bind - preceded by the unlink of
-   sock/server.go:49 - succeeds, whatever the kill left at the socket path *)
+Definition reports_final_after_kill (k : list alabel) : Prop :=
+  exists st, exec (init 1 SockAbsent) (run1_to_unbind ++ k) = Some st /\
+             report 1 (after_kill st) = (snap_of (sc st), false) /\ s_ov (snap_of (sc st)) = OSuccess.
+
+Example kill_inside_compaction :
+  reports_final_after_kill [LCompactRead] /\
+  reports_final_after_kill [LCompactRead; LCompactCreate] /\
+  reports_final_after_kill [LCompactRead; LCompactCreate; LCompactWrite] /\
+  reports_final_after_kill [LCompactRead; LCompactCreate; LCompactWrite; LCompactRename] /\
+  reports_final_after_kill [LCompactRead; LCompactCreate; LCompactWrite; LCompactRename; LCompactUnlink].
+Proof.
+  unfold reports_final_after_kill.
+  split; [|split; [|split; [|split]]]; (eexists; split; [vm_compute; reflexivity | split; vm_compute; reflexivity]).
+Qed.
+
+Example stray_tmp_states :
+  (exists st, exec (init 1 SockAbsent) (run1_to_unbind ++ [LCompactRead; LCompactCreate]) = Some st /\
+              tmp st = Some [] /\ cfile st = None /\ orig st = true) /\
+  (exists st, exec (init 1 SockAbsent) (run1_to_unbind ++ [LCompactRead; LCompactCreate; LCompactWrite]) = Some st /\
+              tmp st = Some [snap_of (sc st)] /\ cfile st = None /\ orig st = true) /\
+  (exists st, exec (init 1 SockAbsent) (run1_to_unbind ++ [LCompactRead; LCompactCreate; LCompactWrite; LCompactRename]) = Some st /\
+              tmp st = None /\ cfile st = Some [snap_of (sc st)] /\ orig st = true).
+Proof.
+  split; [|split]; (eexists; split; [vm_compute; reflexivity | split; [|split]; vm_compute; reflexivity]).
+Qed.
+
+(* C08_restartable: after a kill at any point the flock on the DAG file is free (released by the kernel at process death), a new
+   agent's probe says "not running", and its bind - preceded by the unlink of sock/server.go - succeeds, whatever the kill left at
+   the socket path *)
 Theorem restartable : forall n s0 ls st,
   exec (init n s0) ls = Some st ->
+  dlock (after_kill st) = false /\
   probe_running (sock (after_kill st)) = false /\ bind_ok true (sock (after_kill st)) = true.
 Proof. intros. unfold after_kill; simpl. destruct (sock st); auto. Qed.
+
+(* the flock is held during start-up only (from before the already-running check until the socket listens): a live run does not
+   keep later starts waiting - they get to the probe and are refused there *)
+Theorem flock_only_during_startup : forall n s0 ls st,
+  exec (init n s0) ls = Some st -> dlock st = true -> mrank (mp st) <= 2.
+Proof.
+  intros n s0 ls. assert (G : forall ls st st', (dlock st = true -> mrank (mp st) <= 2) -> exec st ls = Some st' ->
+                                                (dlock st' = true -> mrank (mp st') <= 2)).
+  { clear. intros ls; induction ls as [|l r IH]; intros st st' I He; simpl in He.
+    - inversion He; subst; auto.
+    - destruct (astep st l) as [st1|] eqn:Hs; [|discriminate]. eapply IH; [|exact He].
+      clear - I Hs. astep_cases Hs; simpl in *;
+        repeat match goal with H : mp _ = _ |- _ => rewrite H in * end; simpl in *; intros; try lia; try congruence; auto;
+        try (match goal with K : dlock _ = true |- _ => specialize (I K); lia end). }
+  intros st He. eapply G; [|exact He]. simpl. intros; lia.
+Qed.
 
 (* ... and the unlink is what makes it so: without it a kill while the socket is bound blocks every later start *)
 Theorem unlink_needed : exists ls st,
   exec (init 2 SockAbsent) ls = Some st /\ bind_ok false (sock (after_kill st)) = false.
-Proof. exists [LOpen; LWriteS0; LBind]. eexists. split; vm_compute; reflexivity. Qed.
+Proof. exists [LLockDag; LOpen; LWriteS0; LBind]. eexists. split; vm_compute; reflexivity. Qed.
+
+(* a kill while the flock is held (between the lock and the bind) *)
+Example kill_holding_flock : exists st,
+  exec (init 2 SockStale) [LLockDag; LOpen; LWriteS0] = Some st /\ dlock st = true /\ dlock (after_kill st) = false.
+Proof. eexists. repeat split; vm_compute; reflexivity. Qed.
